@@ -57,6 +57,7 @@ type FuncContract struct {
 	Props        []string
 	Ghost        []string
 	Opaque       bool
+	FreshResult  bool
 	used         bool
 }
 
@@ -227,6 +228,8 @@ func (cs *Contracts) loadFile(path, pkg string) error {
 					curF.Pure = true
 				case "trusted":
 					curF.Trusted = true
+				case "freshresult":
+					curF.FreshResult = true
 				default:
 					return fail("func: unknown modifier %q", extra)
 				}
@@ -347,9 +350,9 @@ func (cs *Contracts) loadFile(path, pkg string) error {
 			if curF == nil {
 				return fail("callback outside func")
 			}
-			m := regexp.MustCompile(`^([A-Za-z_][A-Za-z0-9_]*)\s*:\s*(pure|effect|havoc)\s*(.*)$`).FindStringSubmatch(strings.TrimSpace(rc.text))
+			m := regexp.MustCompile(`^([A-Za-z_][A-Za-z0-9_]*)\s*:\s*(pure|effect|havoc|fresh)\s*(.*)$`).FindStringSubmatch(strings.TrimSpace(rc.text))
 			if m == nil {
-				return fail("callback: expected 'name: pure|effect|havoc ...'")
+				return fail("callback: expected 'name: pure|effect|havoc|fresh ...'")
 			}
 			curF.Callbacks = append(curF.Callbacks, &CallbackSpec{m[1], m[2], m[3]})
 		case "modifies":
